@@ -35,19 +35,19 @@ type job struct {
 // job's block list (unknownID for a hash that is none of them, -1 for "absent").
 type obs struct {
 	Height    int64    `json:"height"`
-	Last      int      `json:"last"`       // last header's hash
-	LastH     int64    `json:"lasth"`      // last header's height
-	Tip       int      `json:"tip"`        // best-chain tip of the in-memory view
-	ByHeight  []int    `json:"byheight"`   // hash at heights 0..Height+3 (-1 = none)
-	Loadable  []bool   `json:"loadable"`   // LoadBlock(height) gives header, body and receipts: heights 0..Height
-	HdrByH    []int    `json:"hdrbyh"`     // GetBlockHeaderByHeight: heights 0..Height+3 (-1 = none)
-	Tx        []int64  `json:"tx"`         // per block i: height recorded by GetTx for its transaction, -1 = not found
-	Td        []string `json:"td"`         // per block i: stored total difficulty, "" = none
-	Stored    []bool   `json:"stored"`     // per block i: LoadBlockByHash works
-	State     []string `json:"state"`      // values (hex) of the job's keys at the tip's state hash
-	LastSeq   int64    `json:"lastseq"`    // -1 = none
-	Seq       [][2]int `json:"seq"`        // records 0..LastSeq: (block, type), (-1,0) = missing
-	SeqOfHash []int64  `json:"seqofhash"`  // per block i: GetSequenceByHash, -1 = none
+	Last      int      `json:"last"`      // last header's hash
+	LastH     int64    `json:"lasth"`     // last header's height
+	Tip       int      `json:"tip"`       // best-chain tip of the in-memory view
+	ByHeight  []int    `json:"byheight"`  // hash at heights 0..Height+3 (-1 = none)
+	Loadable  []bool   `json:"loadable"`  // LoadBlock(height) gives header, body and receipts: heights 0..Height
+	HdrByH    []int    `json:"hdrbyh"`    // GetBlockHeaderByHeight: heights 0..Height+3 (-1 = none)
+	Tx        []int64  `json:"tx"`        // per block i: height recorded by GetTx for its transactions, -1 = none found, txMixed = they disagree
+	Td        []string `json:"td"`        // per block i: stored total difficulty, "" = none
+	Stored    []bool   `json:"stored"`    // per block i: LoadBlockByHash works
+	State     []string `json:"state"`     // values (hex) of the job's keys at the tip's state hash
+	LastSeq   int64    `json:"lastseq"`   // -1 = none
+	Seq       [][2]int `json:"seq"`       // records 0..LastSeq: (block, type), (-1,0) = missing
+	SeqOfHash []int64  `json:"seqofhash"` // per block i: GetSequenceByHash, -1 = none
 }
 
 type childOut struct {
@@ -58,6 +58,10 @@ type childOut struct {
 }
 
 const unknownID = 999999
+
+// txMixed: the index records of one block's transactions disagree (some present, some absent,
+// or different heights)
+const txMixed = -2
 
 func quiet() { log.SetLogLevel("crit") }
 
@@ -174,10 +178,21 @@ func observe(m *testnode.Chain33Mock, blocks []*types.Block, keys []string) obs 
 	var tipState []byte
 	for i, b := range blocks {
 		hash := b.Hash(cfg)
+		// every transaction of the block: the height its index record gives (-1 = no record);
+		// txMixed when the transactions of one block disagree
 		th := int64(-1)
-		if len(b.Txs) > 0 {
-			if r, err := store.GetTx(b.Txs[0].Hash()); err == nil && r != nil {
-				th = r.Height
+		for ti, tx := range b.Txs {
+			x := int64(-1)
+			if r, err := store.GetTx(tx.Hash()); err == nil && r != nil {
+				x = r.Height
+				if x < 0 {
+					x = txMixed
+				}
+			}
+			if ti == 0 {
+				th = x
+			} else if x != th {
+				th = txMixed
 			}
 		}
 		o.Tx = append(o.Tx, th)
